@@ -276,7 +276,8 @@ MANIFEST = {
              "(constructor; hashed donor then model_copy(update) / attribute assignment; hashed then deep copy / dump-validate "
              "round trip; constructor with every optional field passed explicitly), and vocabulary / query tags of the encoders "
              "written differently, so a hash that remembers a derivation or sees which fields were set is refuted (controls "
-             "history/MC_Encoding_hash_memo, _hash_fields_set) -- plus random vocabularies of <= 8 of 15 tags "
+             "history/MC_Encoding_hash_memo, _hash_fields_set, _eq_uri; the encoder is also judged against the OBSERVED equality "
+             "of query and vocabulary tags, EncodeIffObservedEqual) -- plus random vocabularies of <= 8 of 15 tags "
              "with lists of <= 8, and TLC validates the observations clause by clause."),
     "note": ("trusted: TLC, binder checks/c19.py (encoder; objects rebuilt for every use so identity cannot help); the hash "
              "clause is the contract, not the projection: different but sound hashes pass (mutants/C19/must_pass)"),
